@@ -123,7 +123,7 @@ SaveStep(e) ==
          <<"SaveIsToJson", e.out = "ok" => e.doc = e.proj.m[e.s].json>>,
          <<"Doc" \o clash, clash = "">>,
          <<"SavePure", AllSame(prev, e.proj)>> >>,
-      model, data, IF e.out = "ok" THEN Put(store, e.doc, [warn |-> e.proj.m[e.s].warn] @@ Doc(m)) ELSE store, interp)
+      model, data, IF e.out = "ok" THEN Put(store, e.doc, [warn |-> e.proj.m[e.s].warn, tz |-> e.proj.m[e.s].tz] @@ Doc(m)) ELSE store, interp)      \* tz, warnings: as measured on the model that was saved
 
 LoadStep(e) ==
   LET doc == store[e.doc]
